@@ -10,6 +10,9 @@
 #include <AIToolbox/MDP/SparseModel.hpp>
 #include <AIToolbox/MDP/Experience.hpp>
 #include <AIToolbox/MDP/MaximumLikelihoodModel.hpp>
+#include <AIToolbox/MDP/SparseExperience.hpp>
+#include <AIToolbox/MDP/SparseMaximumLikelihoodModel.hpp>
+#include <AIToolbox/MDP/ThompsonModel.hpp>
 #include <AIToolbox/MDP/Algorithms/ValueIteration.hpp>
 #include <AIToolbox/MDP/Algorithms/PolicyIteration.hpp>
 #include <AIToolbox/MDP/Algorithms/LinearProgramming.hpp>
@@ -38,6 +41,7 @@ struct GenericModel {
 static_assert(M::IsModel<GenericModel>, "GenericModel must satisfy IsModel");
 static_assert(!M::IsModelEigen<GenericModel>, "GenericModel must NOT be an Eigen model (generic path)");
 static_assert(M::IsModelEigen<M::Model> && M::IsModelEigen<M::SparseModel> && M::IsModelEigen<M::MaximumLikelihoodModel<M::Experience>>);
+static_assert(M::IsModelEigen<M::SparseMaximumLikelihoodModel<M::SparseExperience>> && M::IsModelEigen<M::ThompsonModel<M::Experience>>);
 
 // ---- generated MDP ------------------------------------------------------------------------------
 struct Gen {
@@ -114,7 +118,7 @@ static AIToolbox::Vector runVI(const Mod & mod, const char * rep, const Gen & G,
     auto [var, vf, q] = vi(mod);
     Line l = head("vi", exact, rep, G); l << h << tol << w.on;
     if (w.on) { l << (size_t)w.vf.values.size(); putVec(l, w.vf.values); l.nats(w.vf.actions); }
-    l << "|" << var; putVec(l, vf.values); putActs(l, vf.actions); putMat(l, q); l.emit();
+    l << "|" << var; putVec(l, vf.values); l.nats(vf.actions); putMat(l, q); l.emit();
     return vf.values;
 }
 
@@ -169,7 +173,7 @@ static void emitXrep(const char * what, bool exact, const Gen & G, const std::ve
 }
 
 // ---- one case ----------------------------------------------------------------------------------------
-static void runAll(Rng & rng, const Gen & G, const std::string & tier) {
+static void runAll(Rng & rng, const Gen & G, const std::string & tier, bool forceEmptyActions = false) {
     const size_t S = G.S, A = G.A;
     M::Model dense(S, A, G.t, G.r, G.g);
     M::SparseModel sparse(S, A, G.t, G.r, G.g);
@@ -178,11 +182,21 @@ static void runAll(Rng & rng, const Gen & G, const std::string & tier) {
     for (size_t s = 0; s < S; ++s) for (size_t a = 0; a < A; ++a) for (size_t s1 = 0; s1 < S; ++s1)
         for (unsigned k = 0; k < G.cnt[s][a][s1]; ++k) exp.record(s, a, s1, dense.getRewardFunction()(s, a));
     M::MaximumLikelihoodModel<M::Experience> learned(exp, G.g, true);
+    // further learned representations: sparse experience and/or sparse maximum-likelihood model over the same history
+    M::SparseExperience sexp(S, A);
+    for (size_t s = 0; s < S; ++s) for (size_t a = 0; a < A; ++a) for (size_t s1 = 0; s1 < S; ++s1)
+        for (unsigned k = 0; k < G.cnt[s][a][s1]; ++k) sexp.record(s, a, s1, dense.getRewardFunction()(s, a));
+    M::SparseMaximumLikelihoodModel<M::Experience> learnedSp(exp, G.g, true);
+    M::MaximumLikelihoodModel<M::SparseExperience> learnedSx(sexp, G.g, true);
+    M::SparseMaximumLikelihoodModel<M::SparseExperience> learnedSpSx(sexp, G.g, true);
 
 #define ALLREPS(CALL) { std::vector<AIToolbox::Vector> vs; \
         { const auto & mod = dense;   const char * rep = "dense";   vs.push_back(CALL); } \
         { const auto & mod = sparse;  const char * rep = "sparse";  vs.push_back(CALL); } \
         { const auto & mod = learned; const char * rep = "learned"; vs.push_back(CALL); } \
+        { const auto & mod = learnedSp; const char * rep = "learned_sp"; vs.push_back(CALL); } \
+        { const auto & mod = learnedSx; const char * rep = "learned_sx"; vs.push_back(CALL); } \
+        { const auto & mod = learnedSpSx; const char * rep = "learned_spsx"; vs.push_back(CALL); } \
         { const auto & mod = generic; const char * rep = "generic"; vs.push_back(CALL); } \
         xrepOut = vs; }
     std::vector<AIToolbox::Vector> xrepOut;
@@ -201,6 +215,10 @@ static void runAll(Rng & rng, const Gen & G, const std::string & tier) {
         Warm w; w.on = true; w.vf.values.resize(S); w.vf.actions.assign(S, 0);
         for (size_t s = 0; s < S; ++s) { w.vf.values[s] = G.dyadic ? 0.5 * (double)rng.range(-8, 8) : 0.3 * (double)rng.range(-8, 8); w.vf.actions[s] = rng.below(A); }
         unsigned h = (unsigned)rng.range(0, 4);
+        // the constructor documents "the initial value function from which to start the loop" and only requires its size to match
+        // S; the actions of a start are never read, so `ValueFunction{values}` (empty actions) is the natural way to pass one
+        if (forceEmptyActions && h == 0) h = 3;
+        if (forceEmptyActions || rng.coin(1, 3)) { w.vf.actions.clear(); std::printf("#stat warm_empty_actions 1\n"); }
         ALLREPS(runVI(mod, rep, G, G.dyadic, h, 0.0, w));
         // wrong-size warm start is ignored
         if (rng.coin(1, 4)) { Warm bad; bad.on = true; bad.vf.values.resize(S + 1); bad.vf.values.setOnes(); bad.vf.actions.assign(S + 1, 0); runVI(dense, "dense", G, G.dyadic, 2, 0.0, bad); }
@@ -233,7 +251,7 @@ static void runAll(Rng & rng, const Gen & G, const std::string & tier) {
         auto doRep = [&](const auto & mod, const char * rep) {
             M::ValueIteration vi(100000, tolVI);
             auto [var, vf, q] = vi(mod);
-            { Line l = head("vi", false, rep, G); l << 100000u << tolVI << false << "|" << var; putVec(l, vf.values); putActs(l, vf.actions); putMat(l, q); l.emit(); }
+            { Line l = head("vi", false, rep, G); l << 100000u << tolVI << false << "|" << var; putVec(l, vf.values); l.nats(vf.actions); putMat(l, q); l.emit(); }
             auto qp = runPI(mod, rep, G, 100000, tolPI);
             auto lr = runLP(mod, rep, G);
             if (lr.ok) {
@@ -244,8 +262,33 @@ static void runAll(Rng & rng, const Gen & G, const std::string & tier) {
             vvi.push_back(vf.values);
         };
         doRep(dense, "dense"); doRep(sparse, "sparse"); doRep(learned, "learned"); doRep(generic, "generic");
+        doRep(learnedSp, "learned_sp"); doRep(learnedSpSx, "learned_spsx");
         emitXrep("vi_tol", false, G, vvi);
-        if (vlp.size() == 4) emitXrep("lp", false, G, vlp);
+        if (vlp.size() == vvi.size()) emitXrep("lp", false, G, vlp);
+    }
+    // (4b) ThompsonModel: a posterior *sample* of the MDP; it is its own MDP (tables read back through the public getters),
+    //      solved through the Eigen path and, wrapped in the query-only struct, through the generic path
+    {
+        M::ThompsonModel<M::Experience> th(exp, G.g);
+        Gen G2; G2.S = S; G2.A = A; G2.g = G.g; G2.dyadic = false;
+        G2.t.assign(S, std::vector<std::vector<double>>(A, std::vector<double>(S, 0.0))); G2.r = G2.t;
+        for (size_t s = 0; s < S; ++s) for (size_t a = 0; a < A; ++a) for (size_t s1 = 0; s1 < S; ++s1) {
+            G2.t[s][a][s1] = th.getTransitionProbability(s, a, s1); G2.r[s][a][s1] = th.getExpectedReward(s, a, s1); }
+        GenericModel thGeneric{S, A, G.g, &G2.t, &G2.r};
+        Warm none; unsigned h = (unsigned)rng.range(0, 8);
+        std::vector<AIToolbox::Vector> vs;
+        vs.push_back(runVI(th, "thompson", G2, false, h, 0.0, none));
+        vs.push_back(runVI(thGeneric, "generic", G2, false, h, 0.0, none));
+        emitXrep("vi_dp_thompson", false, G2, vs);
+        const double tolVI = 1e-3, tolPI = 1e-3;
+        M::ValueIteration vi(100000, tolVI);
+        auto [var, vf, q] = vi(th);
+        { Line l = head("vi", false, "thompson", G2); l << 100000u << tolVI << false << "|" << var; putVec(l, vf.values); l.nats(vf.actions); putMat(l, q); l.emit(); }
+        auto qp = runPI(th, "thompson", G2, 100000, tolPI);
+        auto lr = runLP(th, "thompson", G2);
+        if (lr.ok) { Line l = head("agree", false, "thompson", G2); l << tolVI << tolPI << lr.prec << "|";
+            putVec(l, vf.values); putActs(l, vf.actions); putMat(l, qp); putVec(l, lr.vf.values); putMat(l, lr.q); l.emit(); }
+        std::printf("#stat thompson 1\n");
     }
     // (5) policy iteration with tolerance 0 and a short horizon (optimistic PI): only where it is known to stop quickly
     if (tier == "thorough" ? rng.coin(1, 2) : rng.coin(1, 4)) {
@@ -255,7 +298,7 @@ static void runAll(Rng & rng, const Gen & G, const std::string & tier) {
     }
 }
 
-long verif::verif_ncases(const std::string & tier) { return tier == "thorough" ? 1500 : 160; }
+long verif::verif_ncases(const std::string & tier) { return tier == "thorough" ? 800 : 160; }
 
 // hand-written low-index cases
 static Gen fixedCase(long idx) {
@@ -278,7 +321,7 @@ static Gen fixedCase(long idx) {
 }
 
 void verif::verif_case(Rng & rng, long idx, const std::string & tier) {
-    if (idx < 3) { Gen G = fixedCase(idx); runAll(rng, G, tier); return; }
+    if (idx < 3) { Gen G = fixedCase(idx); runAll(rng, G, tier, idx == 2); return; }
     const bool ugly = (idx % 4 == 3);
     Gen G = genMDP(rng, tier, ugly);
     runAll(rng, G, tier);
